@@ -29,7 +29,7 @@ CLASSES = ("constant", "two_valued", "bits2", "bits4", "bits8", "normal", "wide"
 
 def REQUIRED(tier):
     return ["histories:composition", "histories:merge", "histories:merge_of_merges", "class:constant", "class:wide", "class:outlier", "class:tiny",
-            "mode:basic", "mode:full", "constant_channel_checks", "single_sample_chunks", "canary_audits", "cross_partition_checks", "class:const_f64", "class:normal_f64", "histories:large_merge", "regime:merged_count_over_2^21", "histories:observed_mid_stream", "merge:augmented_assignment", "regime:chunks_of_thousands_of_samples", "histories:reused_chunk_buffer", "histories:after_refused_first_push", "histories:reader_windows"]
+            "mode:basic", "mode:full", "constant_channel_checks", "single_sample_chunks", "canary_audits", "cross_partition_checks", "class:const_f64", "class:normal_f64", "histories:large_merge", "regime:merged_count_over_2^21", "histories:observed_mid_stream", "merge:augmented_assignment", "regime:chunks_of_thousands_of_samples", "histories:reused_chunk_buffer", "histories:after_refused_first_push", "histories:reader_windows", "regime:single_chunk_over_2^20_elements_nchans_not_power_of_two"]
 
 
 def cases(tier, seed):
@@ -52,6 +52,10 @@ def cases(tier, seed):
         k += 1
         yield {"kind": "random", "cls": str(lrng.choice(["normal", "bits8", "outlier", "normal_f64", "two_valued"])), "mode": str(lrng.choice(["basic", "full"])),
                "n": int(lrng.integers(4100, 40000)), "nchans": int(lrng.choice([1, 2, 3, 4, 5])), "dseed": int(seed) * 1009 + k, "threads": 0, "long": True}
+    for nch, n in ((3, 360000), (96, 11000)) if tier == "quick" else ((3, 360000), (96, 11000), (5, 220000), (10, 130000), (48, 30000)):
+        for mode in ("basic", "full"):      # one chunk of more than 2^20 elements with a channel count that does not divide 2^20
+            k += 1
+            yield {"kind": "random", "cls": "bits8" if mode == "basic" else "normal", "mode": mode, "n": n, "nchans": nch, "dseed": int(seed) * 1009 + k, "threads": 0, "long": True}
     rng = np.random.default_rng([seed, 1010])
     nr = 400 if tier == "quick" else 8000
     for _ in range(nr):
@@ -343,8 +347,10 @@ def run_case(case, ctx):
     else:
         if case.get("long"):
             ctx.count("regime:chunks_of_thousands_of_samples")
-        for _ in range(6):
-            m = int(rng.integers(1, min(n, 40))) if not case.get("long") else int(rng.integers(1, 6))
+        for it in range(6):
+            m = int(rng.integers(1, min(n, 40))) if not case.get("long") else (1 if it == 0 else int(rng.integers(1, 6)))
+            if m == 1 and n * nch > (1 << 20) and (nch & (nch - 1)):
+                ctx.count("regime:single_chunk_over_2^20_elements_nchans_not_power_of_two")
             cuts = np.sort(rng.choice(np.arange(1, n), size=m - 1, replace=False)) if m > 1 else np.array([], dtype=int)
             chunks = np.diff(np.concatenate([[0], cuts, [n]])).astype(int).tolist()
             if rng.random() < 0.3:  # a run of single-sample chunks
